@@ -39,6 +39,7 @@ void Net::init()
             hist("DGRM-NOPORT\t%s", dp->name.c_str());
         });
     }
+    for (auto &sp : g_scn.snaps) if (sp.after.empty()) { std::string l = sp.label; at(g_scn.clockStartUs + sp.atUs, [l] { fdSnapshot(l); }); }
     if (g_scn.sigtermAtUs) at(g_scn.clockStartUs + g_scn.sigtermAtUs, [] { hist("LIFE\tsigterm"); raise(SIGTERM); });
     if (g_scn.clients.empty()) { clientsDone = true; clientsDoneAt = g_scn.clockStartUs; at(clientsDoneAt + g_scn.drainUs, [] {}); }
 }
@@ -424,6 +425,7 @@ void Net::flagChanged()
     at(nowUs(), [this] {
         for (size_t i = 0; i < procs.size(); ++i) runProc(procs[i]);
         if (!g_scn.sigtermAfter.empty() && flagSet(g_scn.sigtermAfter)) { g_scn.sigtermAfter.clear(); hist("LIFE\tsigterm"); raise(SIGTERM); }
+        for (auto &sp : g_scn.snaps) if (!sp.after.empty() && !sp.done && flagSet(sp.after)) { sp.done = true; std::string l = sp.label; at(nowUs() + sp.atUs, [l] { fdSnapshot(l); }); }
         for (auto &d : g_scn.dgrams) if (!d.after.empty() && flagSet(d.after)) {
             DgramSpec *dp = &d; std::string keep = d.after; d.after = "!done";
             at(nowUs() + d.atUs, [this, dp] {
